@@ -1,6 +1,8 @@
 HOOK_COMMITS = []
 NOTES = "Model checking = bounded exhaustive exploration of the real code against reference models; see DESIGN.md. Exit 0 held / 1 violation / >=2 machinery failure."
 ENGINES = [
+    {"name": "vc_render", "path": "harness/src/engines/vc_render.rs", "serves_properties": ["C19"],
+     "kind_free_text": "stateless exhaustive enumeration of outcome lists x renderer parameters through the four renderers"},
     {"name": "vc_update", "path": "harness/src/engines/vc_update.rs", "serves_properties": ["C10"],
      "kind_free_text": "stateless exhaustive enumeration of documents x outcome vectors x repeated update application"},
     {"name": "vc_gen", "path": "harness/src/engines/vc_gen.rs", "serves_properties": ["C09"],
@@ -80,5 +82,10 @@ CHECKS.append(
      "technique": "bounded exhaustive enumeration of (document, per-test outcome vector) with repeated application of the real MarkdownUpdateGenerator; invariants judged with the reference tokenizer",
      "text": "Every accepted document of the segment family (with truncations) x every outcome vector over {pass, changed output, changed exit code, unterminated output} is updated by the real generator with outcomes from the real validate, three times in a row: lines outside scrut blocks, block languages/configs/comments and the bodies of passing tests must be preserved, the result must re-parse to the same commands, and the 2nd and 3rd application must change nothing.",
      "note": "Markdown update generator in-process; documents up to 2/3 segments; outputs synthesised per outcome class"})
+CHECKS.append(
+    {"id": "C19", "engine": "vc_render", "category": "exploration", "design_ref": "DESIGN.md §2 C19",
+     "technique": "bounded exhaustive enumeration of outcome lists (diffs produced by the real validate over a text alphabet of multi-byte / wide / control / long lines) x renderer settings through all four real renderers, with structural oracles on the rendering",
+     "text": "Every enumerated outcome list is rendered by pretty (colour and monochrome), diff, json and yaml: no panic, Ok(text); pretty and diff must show exactly one +/- line per unexpected line / unmatched expectation of each failed test containing its text, no section for passed tests, a summary that adds up; json/yaml must parse back to one entry per outcome with the right result kind.",
+     "note": "lists with mixed location presence excluded; needle text computed with scrut's own escaper (C11 covers it)"})
 claimed = {c["id"] for c in CHECKS}
 NOT_APPLICABLE = [{"property_id": p, "reason": "check not built yet (work in progress; planned in DESIGN.md)"} for p in ALL if p not in claimed]
